@@ -4,7 +4,8 @@ P=$(realpath "$1"); PROP=$2; TIER=${3:-quick}
 D=$(mktemp -d /dev/shm/mut-XXXXXX)
 cp -r /repo/synced_collections "$D/" && rm -rf "$D"/synced_collections/__pycache__ "$D"/synced_collections/*/__pycache__
 ( cd "$D" && patch -p1 --no-backup-if-mismatch -s < "$P" ) || { echo "PATCH-FAILED $P"; rm -rf "$D"; exit 3; }
-( cd /verif && VERIF_REPO="$D" VERIF_NO_EVIDENCE=1 ./check "$PROP" "$TIER" ) 2>&1 | grep -v "^\[$PROP\] tier" | tail -${TAILN:-6}
+V=$(cd "$(dirname "$0")/.." && pwd)
+( cd $V && VERIF_REPO="$D" VERIF_NO_EVIDENCE=1 ./check "$PROP" "$TIER" ) 2>&1 | grep -v "^\[$PROP\] tier" | tail -${TAILN:-6}
 rc=${PIPESTATUS[0]}
 rm -rf "$D"
 exit $rc
